@@ -313,8 +313,48 @@ def expr_refs(e: t.Any) -> t.Set[str]:
     return out
 
 
+def expr_type(e: t.Any, types: t.Dict[str, str]) -> str:
+    e = tuple_(e)
+    k = e[0]
+    if k == "col":
+        return types.get(e[1], "?")
+    if k == "lit":
+        return "str" if isinstance(e[1], str) else ("bool" if isinstance(e[1], bool) else "int")
+    if k == "bin":
+        return "int" if e[1] in ("add", "sub", "mul") else "bool"
+    if k == "neg":
+        return "int"
+    if k in ("not", "isNull"):
+        return "bool"
+    if k == "ite":
+        return expr_type(e[2], types)
+    return "?"
+
+
+def well_typed(c: dict) -> bool:
+    """fillna values match the type of every column they fill (PySpark ignores a mismatch, the engine does not)"""
+    types = dict(c["schema"])
+    for s in c["steps"]:
+        k = s["k"]
+        if k == "select":
+            types = {n: expr_type(e, types) for n, e in s["items"]}
+        elif k == "withColumn":
+            types[s["n"]] = expr_type(s["e"], types)
+        elif k == "withColumnRenamed":
+            types = {(s["b"] if n == s["a"] else n): ty for n, ty in types.items()}
+        elif k == "drop":
+            types = {n: ty for n, ty in types.items() if n not in s["ns"]}
+        elif k == "fillna":
+            want = "str" if isinstance(s["v"], str) else "int"
+            if any(types.get(n) != want for n in s["sub"]):
+                return False
+    return True
+
+
 def valid(c: dict) -> bool:
     """does every step only mention columns that exist at that point (what PySpark requires)?"""
+    if not well_typed(c):
+        return False
     cols = list(c["schema"])
     for s in c["steps"]:
         k = s["k"]
